@@ -87,6 +87,8 @@ func (ex *Exec) truncDivRem(a, b *Term) (*Term, *Term) {
 	}
 	q := ex.freshVar("q", IntSort)
 	r := ex.freshVar("r", IntSort)
+	ex.freshDefs[q.Name] = FreshDef{"tq", a, b}
+	ex.freshDefs[r.Name] = FreshDef{"tr", a, b}
 	zero := tf.Inti(0)
 	ax := tf.And(
 		tf.Eq(a, tf.IAdd(tf.IMul(q, b), r)),
@@ -94,7 +96,56 @@ func (ex *Exec) truncDivRem(a, b *Term) (*Term, *Term) {
 		tf.Or(tf.Eq(r, zero), tf.Eq(tf.IGt(r, zero), tf.IGt(a, zero))),
 	)
 	ex.axiom(tf.Implies(tf.Not(tf.Eq(b, zero)), ax))
+	ex.divLemmas(a, b, q, r)
 	return q, r
+}
+
+// divLemmas adds consequences of q = a div b that are implied by the defining axiom but that the
+// solver would have to derive by non-linear reasoning: sign facts, and for a = f1*f2*... the
+// monotonicity facts  f_i <= b => q <= rest,  f_i >= b => q >= rest,  f_i >= 10^18*b => q >= 10^18*rest.
+func (ex *Exec) divLemmas(a, b, q, r *Term) {
+	tf := ex.tf
+	zero := tf.Inti(0)
+	posB := tf.IGt(b, zero)
+	ex.axiom(tf.Implies(tf.And(tf.IGe(a, zero), posB), tf.And(tf.IGe(q, zero), tf.IGe(r, zero), tf.ILe(q, a))))
+	if b.IsConst() {
+		return
+	}
+	var factors []*Term
+	var flat func(t *Term)
+	flat = func(t *Term) {
+		if t.Op == "*" && len(t.Args) == 2 {
+			flat(t.Args[0])
+			flat(t.Args[1])
+			return
+		}
+		factors = append(factors, t)
+	}
+	flat(a)
+	if len(factors) < 2 || len(factors) > 4 {
+		return
+	}
+	nonneg := []*Term{posB}
+	for _, f := range factors {
+		nonneg = append(nonneg, tf.IGe(f, zero))
+	}
+	nn := tf.And(nonneg...)
+	P := tf.IntConst(precision)
+	for i, f := range factors {
+		if f.IsConst() {
+			continue
+		}
+		rest := tf.Inti(1)
+		for j, g := range factors {
+			if j != i {
+				rest = tf.IMul(rest, g)
+			}
+		}
+		ex.axiom(tf.Implies(tf.And(nn, tf.ILe(f, b)), tf.ILe(q, rest)))
+		ex.axiom(tf.Implies(tf.And(nn, tf.IGe(f, b)), tf.IGe(q, rest)))
+		ex.axiom(tf.Implies(tf.And(nn, tf.IGe(f, tf.IMul(P, b))), tf.IGe(q, tf.IMul(P, rest))))
+		ex.axiom(tf.Implies(tf.And(nn, tf.Eq(f, b)), tf.And(tf.Eq(q, rest), tf.Eq(r, zero))))
+	}
 }
 
 func (ex *Exec) truncDiv(a, b *Term) *Term {
@@ -111,6 +162,8 @@ func (ex *Exec) euclidDivMod(a, b *Term) (*Term, *Term) {
 	}
 	q := ex.freshVar("eq", IntSort)
 	m := ex.freshVar("em", IntSort)
+	ex.freshDefs[q.Name] = FreshDef{"eq", a, b}
+	ex.freshDefs[m.Name] = FreshDef{"em", a, b}
 	zero := tf.Inti(0)
 	ax := tf.And(tf.Eq(a, tf.IAdd(tf.IMul(q, b), m)), tf.ILe(zero, m), tf.ILt(m, tf.IAbs(b)))
 	ex.axiom(tf.Implies(tf.Not(tf.Eq(b, zero)), ax))
